@@ -165,17 +165,81 @@ def narrow_random(t, min_bytes=16):
     only a constant sub-window of an otherwise constant buffer, or a random value passes through a cast to a narrow
     integer.  Only what is decidable from the term is reported (an empty list is not a proof of full width)."""
     out = []
+
+    def windows(b, seen):
+        """the constant byte windows of buffer b that hold random data, when b is otherwise constant; None if unknown"""
+        n = 0
+        while is_t(b) and b.op in ("refv", "deref", "conv", "copied") and len(b.args) == 1 and n < 8:
+            b = b.args[0]
+            n += 1
+        if not is_t(b):
+            return []
+        if b.id in seen:
+            return []
+        seen = seen | {b.id}
+        if b.op == "updrng":
+            base, lo, hi, val = b.args
+            w = windows(base, seen)
+            if w is None or not (is_t(lo) and is_t(hi) and lo.op == "int" and hi.op == "int"):
+                return None
+            return w + ([(lo.args[0], hi.args[0])] if Q.rngs(Q.leaves(val)) else [])
+        if b.op == "field" and is_t(b.args[0]) and b.args[0].op == "phi":
+            b = Q.field_of_join(b)
+        if b.op == "phi":
+            from ..terms import PHI
+            acc = []
+            for v in (PHI.get(b.args[0]) or {}).values():
+                w = windows(v, seen)
+                if w is None:
+                    return None
+                acc += w
+            return acc
+        if b.op == "upd":
+            w0, w1 = windows(b.args[0], seen), windows(b.args[2], seen)
+            return None if w0 is None or w1 is None else w0 + w1
+        if b.op == "agg" and len(b.args) == 2 and is_t(b.args[1]):          # newtype around the buffer
+            return windows(b.args[1], seen)
+        return [] if not Q.rngs(Q.leaves(b)) else None
     for x in subterms(t):
-        if x.op == "updrng":
-            base, lo, hi, val = x.args
-            if is_t(lo) and is_t(hi) and lo.op == "int" and hi.op == "int" and not Q.rngs(Q.leaves(base)) and Q.rngs(Q.leaves(val)):
-                n = hi.args[0] - lo.args[0]
-                if n < min_bytes:
-                    out.append("only bytes [%d, %d) of the decoded buffer are random (%d bytes)" % (lo.args[0], hi.args[0], n))
+        if x.op == "updrng" and Q.rngs(Q.leaves(x.args[3])):
+            w = windows(x, frozenset())
+            if w:
+                covered = set()
+                for lo_, hi_ in w:
+                    covered |= set(range(lo_, hi_))
+                if len(covered) < min_bytes:
+                    out.append("only bytes %s of the decoded buffer are random (%d bytes)" % (sorted(set(w)), len(covered)))
         elif x.op == "cast" and len(x.args) >= 3 and x.args[2] in NARROW_INTS and NARROW_INTS[x.args[2]] < min_bytes and \
                 Q.rngs(Q.leaves(x.args[0])):
             out.append("random value narrowed to %s" % x.args[2])
     return sorted(set(out))
+
+
+def is_view_of(t, pname, _seen=None):
+    """t is a contiguous, unmodified view of the parameter `pname`: the parameter itself, a sub-slice of a view, or a
+    loop-carried cursor all of whose incoming values are such views (`rest = &rest[24..]`)"""
+    from ..terms import PHI
+    _seen = _seen or set()
+    n = 0
+    while is_t(t) and n < 16:
+        n += 1
+        if t.op in ("refv", "deref", "conv") and len(t.args) == 1:
+            t = t.args[0]
+        elif t.op == "slice":
+            t = t.args[0]
+        elif t.op == "field" and is_t(t.args[0]) and t.args[0].op == "phi":
+            t = Q.field_of_join(t)
+        elif t.op == "field" and is_t(t.args[0]) and t.args[0].op == "agg" and isinstance(t.args[1], int) and \
+                1 + t.args[1] < len(t.args[0].args):
+            t = t.args[0].args[1 + t.args[1]]
+        elif t.op == "phi":
+            if t.id in _seen:
+                return True
+            inc = list((PHI.get(t.args[0]) or {}).values())
+            return bool(inc) and all(is_view_of(v, pname, _seen | {t.id}) for v in inc)
+        else:
+            break
+    return is_t(t) and Q.path_of(t) == pname
 
 
 def complete_repr(t):
